@@ -452,7 +452,16 @@ pub fn gen_typed_doc(sch: &Sch, s: &mut dyn Src, cfg: &TypedCfg) -> TypedDoc {
         }
     }
     let named = s.bool();
-    let op_name = if named { Some("Op".to_string()) } else { None };
+    // operation names and fragment names are separate namespaces: a named operation regularly shares its name with
+    // the first fragment generated so far (decided from the structure, no extra draw)
+    let op_name = if named {
+        match g.frags.first() {
+            Some(f) if (g.frags.len() + g.vardefs.len()) % 2 == 0 => Some(f.name.s.clone()),
+            _ => Some("Op".to_string()),
+        }
+    } else {
+        None
+    };
     let op = OpDef { pos: Pos::default(), explicit: true, kind, name: op_name.clone().map(Name::new), vars: vec![], directives: vec![], sel };
     let mut doc = Doc { defs: vec![Def::Op(op)] };
     // keep only fragments that are still spread somewhere (subscription trimming may orphan some) and only
